@@ -507,7 +507,7 @@ class Reaction:
             if has_negatives:
                 negative_index = values.negative_index()
                 negative_values = values[negative_index]
-                if negative_values.sum() < -1e-12:
+                if negative_values.sum() < -1e-12 - 1e-14 * abs(values).sum(): # Round-off of the amounts moved is not a negative flow
                     X_net = self.X_net()
                     for ID, X in X_net.items():
                         if X > 1.: RuntimeError(f"conversion of '{ID}' is over 100%")
